@@ -9,7 +9,7 @@ w=/tmp/w/$n
 mkdir -p /tmp/w
 [ -e "$w" ] && { echo "$w exists"; exit 1; }
 mkdir -p "$w"
-git -C /repo worktree add -q "$w/repo" -b "ws-$n" 2>/dev/null || git -C /repo worktree add -q "$w/repo" "ws-$n"
+git -C /repo worktree add -q -B "ws-$n" "$w/repo" main
 rsync -a --exclude .git --exclude work --exclude .build --exclude evidence /verif/ "$w/verif/"
 mkdir -p "$w/verif/work" "$w/verif/evidence" "$w/verif/.build"
 cp -r /verif/.build/target "$w/verif/.build/target" 2>/dev/null || true
